@@ -80,10 +80,22 @@ def signal_sets(nvars, tier):
     return out
 
 
+def unit_formulas():
+    """(formula, bound style): bounds spelled with explicit (also mixed) units; the default unit stays s"""
+    from . import c03
+    px, py = F.PX, F.PY
+    base = [('once', (1, 2), px), ('historically', (0, 2), F.X), ('eventually', (1, 2), px), ('always', (1, 1), F.X),
+            ('since', (1, 2), px, py), ('until', (0, 2), px, py), ('unless', (1, 2), px, py), ('always', (1, 2), ('eventually', (0, 1), F.X))]
+    return [(f, st) for f in base for st in c03.UNIT_STYLES]
+
+
 def shards(tier):
     fs = formula_set(tier)
     per = 4 if tier == 'quick' else 2
-    return [{'formulas': [F.to_json(f) for f in fs[i:i + per]]} for i in range(0, len(fs), per)]
+    out = [{'formulas': [F.to_json(f) for f in fs[i:i + per]]} for i in range(0, len(fs), per)]
+    uf = unit_formulas()
+    out += [{'formulas': [], 'units': [(F.to_json(f), st) for f, st in uf[i:i + 4]]} for i in range(0, len(uf), 4)]
+    return out
 
 
 def reference(f, signals, idx=0, hook=None):
@@ -130,10 +142,12 @@ def check_case(case, spec=None, idx=0, ref=None):
 def run_shard(shard, tier, res):
     mod = sys.modules[__name__]
     cache = {}
-    for fj in shard['formulas']:
+    from . import c03
+    todo = [(fj, None) for fj in shard['formulas']] + [(fj, st) for fj, st in shard.get('units', [])]
+    for fj, style in todo:
         f = F.from_json(fj)
         vs = sorted(F.fvars(f)) or ['x']
-        text = 'out = ' + F.pr(f)
+        text = 'out = ' + (F.pr(f, c03.unit_bound(style)) if style else F.pr(f))
         res.formulas += 1
         try:
             spec = impl.build('ct_off', text, vs)
